@@ -142,15 +142,15 @@ pub fn run(cx: &mut Ctx) {
             check_mult(cx, &n, &bp, "random", "basemult", i % 800 == 0);
             cx.cover("point_class", "prime_subgroup");
             // scalarmult_base itself, and DH commutativity for this honest pair
-            let mut pk_a = [0u8; 32];
+            let mut pk_a = stale_arr::<32>();
             let case = || json!({"op":"crypto_scalarmult_base","n":hx(&n)});
             if call(cx, "C05|crypto_scalarmult_base", "crypto_scalarmult_base", case, || crypto_scalarmult_base(&mut pk_a, &n)).is_some() {
                 expect_eq(cx, "C05|crypto_scalarmult_base|mismatch_vs_libsodium", &pk_a, &na::scalarmult_base(&n), case);
                 if i % 800 == 0 {
                     cx.io("x25519_base", json!({"n":hx(&n),"out":hx(&pk_a)}));
                 }
-                let mut ab = [0u8; 32];
-                let mut ba = [0u8; 32];
+                let mut ab = stale_arr::<32>();
+                let mut ba = stale_arr::<32>();
                 crypto_scalarmult(&mut ab, &n, &bp);
                 crypto_scalarmult(&mut ba, &s2, &pk_a);
                 expect_eq(cx, "C05|crypto_scalarmult|dh_does_not_commute", &ab, &ba, || json!({"a":hx(&n),"b":hx(&s2)}));
@@ -196,8 +196,8 @@ pub fn run(cx: &mut Ctx) {
             let a = scalars.iter().find(|(n, _)| n == "random_a").unwrap().1;
             let b = scalars.iter().find(|(n, _)| n == "random_a^clampedbits").unwrap().1;
             for (pn, pt) in &specials {
-                let mut qa = [0u8; 32];
-                let mut qb = [0u8; 32];
+                let mut qa = stale_arr::<32>();
+                let mut qb = stale_arr::<32>();
                 crypto_scalarmult(&mut qa, &a, pt);
                 crypto_scalarmult(&mut qb, &b, pt);
                 expect_eq(cx, "C05|crypto_scalarmult|clamped_bits_change_result", &qa, &qb, || json!({"p":hx(pt),"pclass":pn}));
@@ -219,7 +219,7 @@ pub fn run(cx: &mut Ctx) {
         let mut done = 0usize;
         for (target, want) in iters {
             while done < *target {
-                let mut out = [0u8; 32];
+                let mut out = stale_arr::<32>();
                 crypto_scalarmult(&mut out, &k, &u);
                 u = k;
                 k = out;
